@@ -68,6 +68,7 @@ type docCase struct {
 	pubText           string
 	cancelAt          time.Duration // 0: never; else the caller's context is cancelled at this instant
 	viaHTTP           bool          // the request goes through the HTTP handler instead of the library call
+	twin              bool          // (viaHTTP) a second request to the SAME server, same parameters except skip-private-hops, is in flight meanwhile
 }
 
 func (h docHop) sx() sx {
@@ -275,8 +276,20 @@ func runDocCase(t *testing.T, c docCase) sx {
 	var out sx
 	synctest.Test(t, func(t *testing.T) {
 		cache.Cache.Flush()
-		var runIdx, e2eIdx atomic.Int32
+		// the scripted answers are handed out per request: the twin request (the other skip-private-hops value) gets the same ones
+		var runIdxs, e2eIdxs [2]atomic.Int32
+		twinGate := make(chan struct{})
 		restore := traceroute.VerifSetRunOnce(func(ctx context.Context, p traceroute.TracerouteParams, port int) (*result.TracerouteRun, error) {
+			which := 0
+			if p.SkipPrivateHops != c.skip {
+				which = 1
+				// every query of the twin is held until the observed request has been handed to the handler (and 1 ms more):
+				// the two requests overlap in time
+				// (no sync.Once here: a goroutine waiting on its mutex is not durably blocked for the virtual clock)
+				<-twinGate
+				time.Sleep(time.Millisecond)
+			}
+			runIdx, e2eIdx := &runIdxs[which], &e2eIdxs[which]
 			var q docQuery
 			// a query the request did not ask for (more runs / probes started than scripted) gets a plain
 			// one-hop answer, so the case completes and the counts in the document show the excess
@@ -351,7 +364,25 @@ func runDocCase(t *testing.T, c docCase) sx {
 			qs.Set("skip-private-hops", strconv.FormatBool(c.skip))
 			rec := httptest.NewRecorder()
 			req := httptest.NewRequest(http.MethodGet, "/traceroute?"+qs.Encode(), nil).WithContext(ctx)
-			server.VerifNewServer(tr).TracerouteHandler(rec, req)
+			srv := server.VerifNewServer(tr)
+			if c.twin {
+				qs2 := url.Values{}
+				for k, v := range qs {
+					qs2[k] = v
+				}
+				qs2.Set("skip-private-hops", strconv.FormatBool(!c.skip))
+				req2 := httptest.NewRequest(http.MethodGet, "/traceroute?"+qs2.Encode(), nil)
+				twinDone := make(chan struct{})
+				go func() {
+					defer close(twinDone)
+					srv.TracerouteHandler(httptest.NewRecorder(), req2)
+				}()
+				defer func() { <-twinDone }()
+				// let the twin get as far as its first query before the observed request starts
+				synctest.Wait()
+				close(twinGate)
+			}
+			srv.TracerouteHandler(rec, req)
 			body := rec.Body.String()
 			found := sxList{}
 			if rec.Code != http.StatusOK {
@@ -496,6 +527,7 @@ func genDocCase(r *rng, i int) docCase {
 		c.q, c.e = 0, 0
 	}
 	c.viaHTTP = i%4 == 3
+	c.twin = i%8 == 7
 	if r.intn(4) == 0 {
 		// the per-query function (like the real udp/tcp drivers) ignores the context: cancellation must not lose samples
 		c.cancelAt = time.Duration(1+r.intn(1500))*time.Millisecond + 777
@@ -573,6 +605,9 @@ func labDoc(e labEnv) {
 		}
 		if c.viaHTTP {
 			tags["via_http_handler"]++
+			if c.twin {
+				tags["via_http_with_overlapping_twin_request"]++
+			}
 		}
 		if l, ok := out.(sxList); ok && len(l) > 0 {
 			tags[fmt.Sprintf("status%s", sxString(l[0]))]++
